@@ -23,13 +23,15 @@ def record_exposure(cfg: dict, construction: str = "python", debug: bool = False
     events = pm.SINK.events
     meta = {"construction": construction, "debug": debug, "hier": hier, "readout": readout_how,
             "yaml_order": yaml_order, "detector": kind, "real": real}
+    if extra:
+        meta["extra"] = extra
     try:
         det0 = px.make_detector(kind, rows, cols)
     except Exception:
         return {"cfg": cfg, "events": [{"e": "harness-error", "why": traceback.format_exc()[-400:]}],
                 "meta": meta}
     try:
-        if construction == "yaml":
+        if construction in ("yaml", "run-file"):
             text = px.yaml_document(cfg, order=yaml_order, seed=seed, extra=extra, rows=rows,
                                     cols=cols, kind=kind)
             conf = pyxel.loads(text)
@@ -48,7 +50,25 @@ def record_exposure(cfg: dict, construction: str = "python", debug: bool = False
         return {"cfg": cfg, "events": [{"e": "harness-error", "why": traceback.format_exc()[-400:]}],
                 "meta": meta}
     try:
-        dt = pyxel.run_mode(mode, det, pipe, debug=debug, with_inherited_coords=hier)
+        if construction == "run-file":
+            # the command-line entry point: pyxel.run(<file>) (no result object; outputs optional)
+            import os
+            import shutil
+            import tempfile
+            d = tempfile.mkdtemp(prefix="runfile_", dir=os.environ.get("VERIF_WORK", px.VERIF + "/.work"))
+            try:
+                text = px.yaml_document(cfg, order=yaml_order, seed=seed, extra=extra, rows=rows, cols=cols, kind=kind)
+                if (extra or {}).get("with_outputs"):
+                    text = text.replace("exposure:\n", "exposure:\n  outputs:\n    output_folder: '%s'\n" % os.path.join(d, "out"), 1)
+                f = os.path.join(d, "config.yaml")
+                with open(f, "w") as fh:
+                    fh.write(text)
+                pyxel.run(f)
+                dt = None
+            finally:
+                shutil.rmtree(d, ignore_errors=True)
+        else:
+            dt = pyxel.run_mode(mode, det, pipe, debug=debug, with_inherited_coords=hier)
     except Exception as exc:
         evs = list(events)
         pe = px.project_exception(exc)
@@ -60,9 +80,9 @@ def record_exposure(cfg: dict, construction: str = "python", debug: bool = False
             keep["detector"] = det
         return out
     evs = list(events)
-    evs.append({"e": "done", "result": px.project_result(dt)})
+    evs.append({"e": "done", "result": px.project_result(dt)} if dt is not None else {"e": "done"})
     out = {"cfg": cfg, "events": evs, "meta": meta}
-    if debug:
+    if debug and dt is not None:
         out["debug_nodes"] = debug_nodes(dt)
         out["debug_changed"] = debug_changed(dt)
     if keep is not None:
